@@ -173,7 +173,7 @@ def check_tree(sh, e, rng, seedtag):
     c = exprgen.canon(e)
     is_aff = e.__class__.__name__ == 'ExprAff'
     wit = {'tree': c, 'str': str(e)}
-    envs = [irsem.Env(seed=(seedtag, i)) for i in range(3)]
+    envs = [irsem.Env(seed=(seedtag, i), segmented=True) for i in range(3)]
     val_of = (lambda t: values(t.src, envs) + values(t.dst, envs) if t.__class__.__name__ == 'ExprAff' and t.dst.__class__.__name__ != 'ExprId' else (values(t.src, envs) if t.__class__.__name__ == 'ExprAff' else values(t, envs)))
 
     def law(name, node, field, detail, extra=None):
@@ -361,7 +361,7 @@ def _where(e, ck):
 
 def _canon_culprit(e):
     """Smallest sub-tree whose canonize() changes its value: report its root operator class."""
-    envs = [irsem.Env(seed=('cz', i)) for i in range(3)]
+    envs = [irsem.Env(seed=('cz', i), segmented=True) for i in range(3)]
     best = None
     for t in exprgen.subterms(e):
         try:
